@@ -7,6 +7,7 @@ mkdir -p build evidence replays
 ./coq/gen_project.sh
 ( cd coq && timeout 7000 make -j"$(nproc)" ) > build/coq-build.log 2>&1 || { tail -40 build/coq-build.log; exit 1; }
 ./driver/build.sh
-cp /repo/go.sum harness/go.sum
-( cd harness && CGO_ENABLED=0 go build -tags verif -cover -coverpkg=github.com/openacid/low/... -o ../build/harness-verif . )
+# warm the Go build cache (./check rebuilds the harness from /repo's working tree on every run)
+mkdir -p build/hsrc && cp harness/*.go harness/go.mod build/hsrc/ && cp /repo/go.sum build/hsrc/go.sum
+( cd build/hsrc && CGO_ENABLED=0 go build -tags verif -cover -coverpkg=github.com/openacid/low/... -o ../harness-verif . )
 echo setup ok
